@@ -433,3 +433,9 @@ def check(run):
     from . import c17
     run.rules_run.append("R17c")
     c17.r17c(run)
+    # the ~ / ^ branches rely on the error being recorded before it is raised (shared with C10); inherited field
+    # declarations must be the nearest ones (shared with C05)
+    from . import c05
+    run.rules_run += ["R10c", "R05h"]
+    c10.r10c(run)
+    c05.r05h(run)
